@@ -2,7 +2,7 @@ import core, os
 
 LEVEL = 'exploration'
 RULE = ('sequential: random sequence lengths 1-12 on the default and 0-4 conditions of one stub (Func, Struct.Method, Interface.Method, two-result func; Return+AndReturn and Returns forms), '
-        'random interleaving of calls selecting different stubs, each checked against an exact per-stub cursor; concurrent (race build): 2-32 goroutines released by a spin barrier call '
+        'random interleaving of calls selecting different stubs, each checked against an exact per-stub cursor; one sequence given in two statements with calls in between; sequences of distinct interface-typed result objects; concurrent (race build): 2-32 goroutines released by a spin barrier call '
         'one stub whose elements are unique per position, every operation recorded {client, call stamp, value, return stamp} from one atomic clock and checked offline by porcupine '
         'against the monotone-cursor specification (partitioned by stub) and by a direct real-time-order check; the same histories again with debug logging on; sequences of thousands of distinct elements hammered by up to 16 goroutines until all have seen the last one, checked by the direct real-time-order rule; race reports counted from GORACE log; '
         'distinct = (mode, API form, goroutine bucket, number of stubs, max length) classes')
@@ -17,6 +17,7 @@ def run(ctx):
     nseq, nh, shards = ('300', '40', 4) if not ctx.thorough else ('2500', '320', 16)
     ctx.children(b, shards, run='TestC05Sequential', env={'VERIF_C05_SEQ': nseq}, timeout=1200)
     pt = '4' if not ctx.thorough else '20'  # porcupine budget per history; a timeout is inconclusive for that history only
+    ctx.children(b, 1, run='TestC05Split', env={'VERIF_C05_SPLIT': '120' if not ctx.thorough else '3000'}, timeout=1200, what='TestC05Split')
     racelog = os.path.join(ctx.scratch, 'race')
     ctx.children(br, shards, run='TestC05Concurrent', timeout=2400, parallel=4,
                  env={'VERIF_C05_HIST': nh, 'VERIF_C05_PTIMEOUT': pt, 'GORACE': 'halt_on_error=0 log_path=%s' % racelog})
